@@ -13,8 +13,10 @@ package cdc
 //
 // Generator: operation sequences
 //   req      Execute request of 1..4 statements (single/multi-row INSERT,
-//            UPDATE one/all rows, DELETE) over tables t1,t2; with / without
-//            transaction
+//            UPDATE one/all rows, DELETE, and statements that fail: PK / UNIQUE /
+//            NOT NULL / CHECK violation, partially applied multi-row insert,
+//            syntax error, missing table -- at any position) over tables
+//            t1,t2; with / without transaction
 //   snap     user snapshot (drives the snapshot-sync flush)
 //   down/up  endpoint outage begins / ends (503, or the connection is dropped
 //            without a response)
@@ -345,12 +347,48 @@ func c25Apply(db *sql.DB, stmt string) ([]c25Change, error) {
 	return out, nil
 }
 
+// c25ApplyReq applies a whole request to the model with rqlite's documented
+// request semantics: without a transaction every statement stands alone (a
+// failing statement changes nothing, the rest still run); with a transaction
+// the first failing statement rolls everything back and ends the request.
+// It returns the row changes that were committed, per statement, and which
+// statements failed.
+func c25ApplyReq(db *sql.DB, stmts []string, tx bool) (changes [][]c25Change, failed []bool, err error) {
+	changes = make([][]c25Change, len(stmts))
+	failed = make([]bool, len(stmts))
+	if tx {
+		if _, err := db.Exec("BEGIN"); err != nil {
+			return nil, nil, err
+		}
+	}
+	for j, s := range stmts {
+		chs, serr := c25Apply(db, s)
+		if serr != nil {
+			failed[j] = true
+			if tx {
+				if _, err := db.Exec("ROLLBACK"); err != nil {
+					return nil, nil, err
+				}
+				return make([][]c25Change, len(stmts)), failed, nil
+			}
+			continue
+		}
+		changes[j] = chs
+	}
+	if tx {
+		if _, err := db.Exec("COMMIT"); err != nil {
+			return nil, nil, err
+		}
+	}
+	return changes, failed, nil
+}
+
 // ---- generator -----------------------------------------------------------------------
 
 func c25GenStmt(rt *rapid.T, serial *int) string {
 	*serial++
 	t := rapid.SampledFrom([]string{"t1", "t1", "t2"}).Draw(rt, "table")
-	switch rapid.IntRange(0, 6).Draw(rt, "stmtKind") {
+	switch rapid.IntRange(0, 8).Draw(rt, "stmtKind") {
 	case 0, 1, 2:
 		return fmt.Sprintf("INSERT INTO %s(v) VALUES('a%d')", t, *serial)
 	case 3:
@@ -359,8 +397,26 @@ func c25GenStmt(rt *rapid.T, serial *int) string {
 		return fmt.Sprintf("UPDATE %s SET v='u%d' WHERE id=(SELECT max(id) FROM %s)", t, *serial, t)
 	case 5:
 		return fmt.Sprintf("UPDATE %s SET v=v||'x%d' WHERE id IN (SELECT id FROM %s ORDER BY id DESC LIMIT 3)", t, *serial, t)
-	default:
+	case 6:
 		return fmt.Sprintf("DELETE FROM %s WHERE id=(SELECT min(id) FROM %s)", t, t)
+	}
+	// statements that (usually) fail: constraint violations of every kind, a
+	// partially applied multi-row insert, a syntax error, a missing table
+	switch rapid.IntRange(0, 6).Draw(rt, "failKind") {
+	case 0:
+		return fmt.Sprintf("INSERT INTO %s(id, v) VALUES((SELECT max(id) FROM %s), 'dup%d')", t, t, *serial)
+	case 1:
+		return fmt.Sprintf("INSERT INTO %s(v, u) VALUES('q%d', 'same')", t, *serial) // UNIQUE: only the first one succeeds
+	case 2:
+		return fmt.Sprintf("INSERT INTO %s(v) VALUES(NULL)", t)
+	case 3:
+		return fmt.Sprintf("INSERT INTO %s(v) VALUES('bad')", t)
+	case 4:
+		return fmt.Sprintf("INSERT INTO %s(id, v) SELECT 500000+%d, 'p%d' UNION ALL SELECT (SELECT min(id) FROM %s), 'dup'", t, *serial, *serial, t)
+	case 5:
+		return fmt.Sprintf("INSERT INTO %s(v) VALUEZ('s%d')", t, *serial)
+	default:
+		return fmt.Sprintf("INSERT INTO no_such_table_%s(v) VALUES('n%d')", t, *serial)
 	}
 }
 
@@ -412,7 +468,7 @@ func c25GenOps(rt *rapid.T) []c25Op {
 
 func TestVerif_C25_Service(t *testing.T) {
 	rec := vstat.New(t, "C25", "service",
-		"operation sequences (3..16 ops quick, ..40 thorough) on a real Store + cdc.Service + recording HTTP endpoint: Execute requests of 1..4 statements (insert/multi-row insert/update/delete on t1,t2) with/without transaction, user snapshots, endpoint outages (503 / dropped connection / fail next n), leadership flaps, node restarts; config batch size {1,2,3,10} x batch delay {5,40ms} x filter {none,^t1$}; non-trivial = at least one multi-statement request and at least one fault (outage, flap, restart or snapshot); distinct by config+op sequence")
+		"operation sequences (3..16 ops quick, ..40 thorough) on a real Store + cdc.Service + recording HTTP endpoint: Execute requests of 1..4 statements (insert/multi-row insert/update/delete on t1,t2, plus failing statements at any position: PK/UNIQUE/NOT NULL/CHECK violations, partially applied multi-row insert, syntax error, missing table) with/without transaction, user snapshots, endpoint outages (503 / dropped connection / fail next n), leadership flaps, node restarts; config batch size {1,2,3,10} x batch delay {5,40ms} x filter {none,^t1$}; non-trivial = at least one multi-statement request and at least one fault (outage, flap, restart or snapshot); distinct by config+op sequence")
 	rapid.Check(t, func(rt *rapid.T) {
 		cf := c25Conf{
 			BatchSz:    rapid.SampledFrom([]int{1, 2, 3, 10}).Draw(rt, "batchSz"),
@@ -441,29 +497,30 @@ func TestVerif_C25_Service(t *testing.T) {
 		defer model.Close()
 
 		ctx := context.Background()
-		exec := func(stmts []string, tx bool) (uint64, error) {
+		exec := func(stmts []string, tx bool) (uint64, []bool, error) {
 			ss := make([]*proto.Statement, len(stmts))
 			for i := range stmts {
 				ss[i] = &proto.Statement{Sql: stmts[i]}
 			}
 			res, idx, err := n.s.Execute(ctx, &proto.ExecuteRequest{Request: &proto.Request{Statements: ss, Transaction: tx}})
 			if err != nil {
-				return 0, err
+				return 0, nil, err
 			}
-			for _, r := range res {
-				if r.GetError() != "" || r.GetE().GetError() != "" {
-					return 0, fmt.Errorf("statement failed: %v", r)
-				}
+			failed := make([]bool, len(res))
+			for i, r := range res {
+				failed[i] = r.GetError() != "" || r.GetE().GetError() != ""
 			}
 			// keep the in-memory hand-off channel from filling (documented drop excluded)
 			deadline := time.Now().Add(20 * time.Second)
 			for len(n.svc.in) > 0 && time.Now().Before(deadline) {
 				time.Sleep(time.Millisecond)
 			}
-			return idx, nil
+			return idx, failed, nil
 		}
-		schema := []string{"CREATE TABLE t1(id INTEGER PRIMARY KEY, v TEXT)", "CREATE TABLE t2(id INTEGER PRIMARY KEY, v TEXT)"}
-		if _, err := exec(schema, true); err != nil {
+		schema := []string{
+			"CREATE TABLE t1(id INTEGER PRIMARY KEY, v TEXT NOT NULL CHECK(v <> 'bad'), u TEXT UNIQUE)",
+			"CREATE TABLE t2(id INTEGER PRIMARY KEY, v TEXT NOT NULL CHECK(v <> 'bad'), u TEXT UNIQUE)"}
+		if _, fl, err := exec(schema, true); err != nil || len(fl) != 2 || fl[0] || fl[1] {
 			rt.Skip("schema")
 		}
 		for _, s := range schema {
@@ -484,17 +541,34 @@ func TestVerif_C25_Service(t *testing.T) {
 		// nothing delivered yet) when a flap happened while the endpoint was failing
 		flapHeads := map[uint64]bool{}
 		doReq := func(stmts []string, tx bool) bool {
-			idx, err := exec(stmts, tx)
+			idx, gotFailed, err := exec(stmts, tx)
 			if err != nil {
 				t.Logf("infrastructure: execute: %v", err)
 				return false
 			}
-			for j, s := range stmts {
-				chs, err := c25Apply(model, s)
-				if err != nil {
-					t.Fatalf("harness: model: %v", err)
+			changes, failed, err := c25ApplyReq(model, stmts, tx)
+			if err != nil {
+				t.Fatalf("harness: model: %v", err)
+			}
+			// rqlite must agree with SQLite about which statements failed (deciding
+			// that is C13's business; here a disagreement only makes the expectation
+			// unusable)
+			anyFailed := false
+			for j := range gotFailed {
+				if j < len(failed) && gotFailed[j] != failed[j] {
+					rec.Label("model-disagrees-on-failure")
+					t.Logf("inconclusive: statement %d of %v: rqlite failed=%v model failed=%v", j+1, stmts, gotFailed[j], failed[j])
+					return false
 				}
-				for _, c := range chs {
+			}
+			for _, f := range failed {
+				anyFailed = anyFailed || f
+			}
+			if anyFailed {
+				rec.Label(fmt.Sprintf("req-with-failing-stmt/tx=%v", tx))
+			}
+			for j := range stmts {
+				for _, c := range changes[j] {
 					if filterRe != nil && !filterRe.MatchString(c.Table) {
 						continue
 					}
